@@ -69,7 +69,8 @@ func c20Vals(api string) (old, neu string) {
 	case "yaml":
 		return "a: 1\n", "a: 2\n"
 	}
-	return "old", "new"
+	// (values with lines shaped like entry headers: they are text, never items of the summary)
+	return "old\n[worker - 3]\nend", "new\n[worker - 4]\n[TestGone/100%_off_%d - 1]"
 }
 
 // c20Prepare writes the pre-existing slots the ops need (recorded by the
@@ -195,9 +196,10 @@ func c20Gen(c *vfCtx, emit func(c20Case)) {
 		for j := 0; j < 6; j++ {
 			w = append(w, c20Ops[(i+j*4)%len(c20Ops)])
 		}
-		for _, stale := range []int{0, 1, 2, 3} {
+		for _, stale := range []int{0, 1, 2, 3, 4} {
 			emit(c20Case{Kind: "seq", Ops: w, Stale: stale, Env: env})
 		}
+		emit(c20Case{Kind: "seq", Ops: []string{c20Ops[i]}, Stale: 4, Env: env, Sort: i%2 == 0})
 		emit(c20Case{Kind: "seq", Ops: []string{c20Ops[i], "snapg:pass"}, Stale: 3, Env: env})
 		emit(c20Case{Kind: "seq", Ops: []string{"snapg:pass", c20Ops[i], "snap:pass"}, Stale: 3, Env: env, Sort: true})
 		emit(c20Case{Kind: "seq", Ops: []string{c20Ops[i], c20Ops[i], c20Ops[i], c20Ops[i], c20Ops[i], c20Ops[i]}, Stale: 1, Env: env})
@@ -269,6 +271,10 @@ func c20Stale(dir string, stale int) {
 	}
 	if stale >= 2 {
 		os.WriteFile(filepath.Join(dir, c20StaleFile), vfRender([]vfEntry{{ID: "TestOld - 1", Body: "x"}}), 0o644)
+	}
+	if stale >= 4 {
+		// a multi-entry file nobody addresses, holding the snapshot of a test that calls snaps.Skip plus a stale one
+		os.WriteFile(filepath.Join(dir, "skipowned.snap"), vfRender([]vfEntry{{ID: "TestSkipOwner - 1", Body: "kept: its test skipped"}, {ID: "TestGoneToo - 1", Body: "stale"}}), 0o644)
 	}
 	if stale >= 3 {
 		// the SAME obsolete id in a second addressed file (g.snap, addressed by the op "snap2:pass")
@@ -418,6 +424,15 @@ func c20Run(c *vfCtx, cs c20Case) {
 			staleT = append(staleT, c20StaleID) // the same id, obsolete in a second file: listed twice
 		} else if visited {
 			staleF = append(staleF, "g.snap")
+		}
+	}
+	if cs.Stale >= 4 {
+		ts := &vfT{name: "TestSkipOwner"}
+		Skip(ts, "owner of skipowned.snap")
+		ts.end()
+		want["skipped"]++
+		if visited {
+			staleT = append(staleT, "TestGoneToo - 1")
 		}
 	}
 	out := vfClean("", count, cs.Sort)
